@@ -999,7 +999,7 @@ class MoneyConverter:
         type(None): lambda d: None,
         int: lambda d: d.year,
         tuple: lambda d: (d.year, d.month),
-        date: lambda d: d,
+        date: lambda d: date(d.year, d.month, d.day),
         }
 
     def __init__(self, base_currency: Currency,
@@ -1143,7 +1143,13 @@ class MoneyConverter:
             except ValueError:
                 raise ValueError(f"Not a valid year: "
                                  f"{validity}.") from None
-        elif not (validity is None or isinstance(validity, date)):
+            else:
+                # the look-up is keyed by plain ints
+                validity = int(validity)
+        elif isinstance(validity, date):
+            # the look-up is keyed by plain dates (not by datetimes etc.)
+            validity = date(validity.year, validity.month, validity.day)
+        elif validity is not None:
             raise ValueError(f"Not a valid period: {validity}.")
         # check type of validity
         type_of_validity = self._type_of_validity
